@@ -2055,6 +2055,9 @@ impl Node {
         prev_outs: &[TxOut],
         uniclosekeys: Vec<Option<(SecretKey, Vec<Vec<u8>>)>>,
     ) -> Result<Vec<Vec<Vec<u8>>>, Status> {
+        // The tracker may be updated for multiple channels.  Lock it before the channels map,
+        // which is the order used everywhere else (setup_channel, get_heartbeat).
+        let mut tracker = self.get_tracker();
         let channels_lock = self.get_channels();
 
         // Funding transactions cannot be associated with just a single channel;
@@ -2230,9 +2233,6 @@ impl Node {
                 witvec.push(witness);
             }
         }
-
-        // The tracker may be updated for multiple channels
-        let mut tracker = self.get_tracker();
 
         // This locks channels in a random order, so we have to keep a global
         // lock to ensure no deadlock.  We grab the self.channels mutex above
